@@ -313,6 +313,8 @@ pub enum NativeBehaviour {
     /// record, then call the first argument (a function value) with the remaining arguments
     /// through `Vm::run_function`, return its result
     Reenter,
+    /// like Reenter, but an error of the callee is swallowed: the host function returns nil
+    TryReenter,
 }
 
 #[derive(Clone, Debug, PartialEq, Serialize, Deserialize)]
@@ -337,6 +339,7 @@ pub fn default_natives() -> Vec<NativeSpec> {
         n("reenter0", 1, Reenter),
         n("reenter1", 2, Reenter),
         n("reenter2", 3, Reenter),
+        n("try_call", 1, TryReenter),
     ]
 }
 
@@ -879,6 +882,14 @@ impl<'a> Interp<'a> {
                     }
                 }
                 Ok(t)
+            }
+            NativeBehaviour::TryReenter => {
+                let f = args[0].clone();
+                match self.call_value(&f, vec![], path) {
+                    Ok(v) => Ok(v),
+                    Err(Flow::Error(_)) => Ok(V::Nil),
+                    Err(other) => Err(other),
+                }
             }
             NativeBehaviour::Reenter => {
                 let f = args[0].clone();
